@@ -479,7 +479,7 @@ Unwind ==
               \* a state object dies where its scope is left: state< S, R >'s inside the rule (before the unwind hook), a
               \* switching action's outside match() (after it); the outer invocation of a change_action* never ran match()
            IN /\ q' = (IF f.nsk = 1 /\ f.pc = "k" THEN <<EvSd(f.ns)>> ELSE <<>>)
-                      \o (IF f.pc # "sw" /\ f.nouw = 0 /\ Enabled(f) /\ HasUnw(f) THEN <<EvHook("uw", f.n, f.cf, c1)>> ELSE <<>>)
+                      \o (IF f.pc # "sw" /\ f.nouw = 0 /\ Enabled(f) /\ HasUnw(f) THEN <<[EvHook("uw", f.n, f.cf, c1) EXCEPT !.e = IF f.rme >= 0 THEN f.rme ELSE End]>> ELSE <<>>)     \* (rematch's own input never changed its end)
                       \o (IF f.nsk = 2 THEN <<EvSd(f.ns)>> ELSE <<>>)
                       \o <<[EvXc(f.n, exc.cls, c2) EXCEPT !.e = aux'.end, !.d = IF Cfg.cls = 1 THEN aux'.dep ELSE -1]>>
               /\ cur' = c2
